@@ -207,6 +207,7 @@ def check(seed, n):
         for k in range(n):
             case = gen_case(rng)
             problem, key = run_case(case, d)
+            proto.sample("locs", {"kind": case["kind"], "env": case["env"], "text": case["marked"].replace("\x01", "").replace("\x02", "")})
             evals += 1
             seen.add(case["marked"])
             dist[case["env"]] = dist.get(case["env"], 0) + 1
